@@ -1,16 +1,31 @@
 """C08 — instruction encodings agree with the architecture reference (RV32.tla; idioms M + G + E)."""
-from harness import asmgen, core
+from harness import asmgen
 
-MC_CFG = """CONSTANT Deep = %s
-INIT Init
-NEXT Next
-CHECK_DEADLOCK FALSE
-INVARIANT LawDecodeEncode
-INVARIANT LawEncodeDecode16
-INVARIANT LawExpand
-INVARIANT LawFieldRange
-INVARIANT LawHiLo
-"""
+
+def report(ctx, prop, verdicts, what):
+    """Map TLC's rejected records to violations / notes."""
+    unknown = 0
+    undecodable = 0
+    for rec, clause, _ in verdicts:
+        if clause == "SyntaxKnown":
+            unknown += 1
+            continue
+        if clause == "Decodable":
+            undecodable += 1
+            continue
+        ctx.violation(rec["key"], what(rec, clause) + " [clause %s]" % clause,
+                      {"record": {k: v for k, v in rec.items()}, "clause": clause})
+    if unknown:
+        ctx.note("%d instance(s) printed in a syntax outside the modelled RISC-V assembly: no verdict" % unknown)
+    if undecodable:
+        ctx.note("%d instance(s) whose bytes are outside the decoder's subset or are not the printed instruction: "
+                 "no verdict here (C08 judges them)" % undecodable)
+
+
+def restrict(ctx, recs):
+    if ctx.only is not None:
+        return [r for r in recs if r["key"] == ctx.only["key"]]
+    return recs
 
 
 class Engine:
@@ -20,11 +35,16 @@ class Engine:
         thorough = ctx.tier == "thorough"
         ctx.rule("every concrete instruction class of ppci.arch.riscv (isa, rvcisa) x {each register slot swept over "
                  "x0..x31, diagonal, every in-range boundary immediate / displacement enumerated by TLC from "
-                 "RV32.FieldRange, symbol addresses for %hi/%lo forms}; bytes = encode() (+ own relocation applied); "
-                 "TLC: Decode(bytes) = Canon(Asm(printed text)); distinct = distinct (class, printed text, symbol)")
+                 "RV32.FieldRange, symbol addresses for %hi/%lo forms}; bytes = encode() (+ own relocation applied; "
+                 "thorough: also assembler + linker on the printed text); TLC: Decode(bytes) = Canon(Asm(printed text)); "
+                 "macro instructions: the rendering is the printed base instruction / leaves the printed value; "
+                 "distinct = distinct (class, path, printed text, symbol)")
         ctx.assume("lexical tokenisation of the printed text (harness/asmgen.py: tokenize) and the register-name -> "
                    "number reading x<n> -> n")
-        table = asmgen.gen_table(ctx)
+        if ctx.only is None:
+            table = asmgen.laws_and_table(ctx, ["h16", "w32", "ins", "hilo"], thorough)
+        else:
+            table = asmgen.gen_table(ctx)
         rig = asmgen.AsmRig()
         recs = []
         for which in ("riscv", "rvc"):
@@ -33,18 +53,18 @@ class Engine:
             recs += r
             for s in skipped:
                 ctx.note("class %s:%s not instantiated / not an instruction" % (which, s))
-        if ctx.only is not None:
-            recs = [r for r in recs if r["key"] == ctx.only["key"]]
+            r, skipped = asmgen.pseudo_records("C08", which, table, ctx.rng, thorough)
+            recs += r
+            for s, n in sorted(skipped.items()):
+                ctx.note("macro %s:%s: %d instance(s) not rendered" % (which, s, n))
+        recs = restrict(ctx, recs)
         for r in recs:
             ctx.count(r["key"])
         for r in recs[:: max(1, len(recs) // 4)]:
-            ctx.sample({k: r[k] for k in ("key", "out")})
-        unknown = 0
-        for rec, clause, st in asmgen.judge(ctx, recs, ["EncodingAgrees", "SyntaxKnown"], "E: C08 records"):
-            if clause == "SyntaxKnown":
-                unknown += 1
-                continue
-            ctx.violation(rec["key"], "bytes %s do not decode to the printed '%s' [clause %s]" % (
-                bytes(rec["out"]["bytes"]).hex(), rec["text"], clause), {"record": rec, "clause": clause})
-        if unknown:
-            ctx.note("%d instance(s) printed in a syntax outside the modelled RISC-V assembly: no verdict" % unknown)
+            ctx.sample({"key": r["key"], "bytes": r.get("out", {}).get("bytes", r.get("seq"))})
+        verdicts = asmgen.judge(ctx, recs, ["EncodingAgrees", "MacroMeansWhatItPrints", "SyntaxKnown"], "E: C08 records")
+        report(ctx, "C08", verdicts, lambda rec, clause: "bytes %s do not decode to the printed '%s'" % (
+            bytes(rec["out"]["bytes"]).hex() if "out" in rec else [bytes(b).hex() for b in rec["seq"]], rec["text"]))
+        if thorough and ctx.only is None:
+            asmgen.llvm_crosscheck(ctx, [r["out"]["bytes"] for r in recs if "out" in r and r["out"]["ok"]] +
+                                   [b for r in recs if "seq" in r for b in r["seq"]])
